@@ -17,6 +17,13 @@ class Broken(Exception):
     """the check itself could not do its job (exit 2)"""
 
 
+class EnginePanic(Exception):
+    """the real engine panicked inside a recorder (harness exit code 3): a behaviour of the code under test"""
+    def __init__(self, info):
+        super().__init__(info.get("panic", "panic"))
+        self.info = info
+
+
 def goenv():
     e = dict(os.environ)
     e.update(GOFLAGS="-mod=mod", GOPROXY="off", GOSUMDB="off", GOTOOLCHAIN="local", CGO_ENABLED=e.get("CGO_ENABLED", "0"))
@@ -80,6 +87,10 @@ class Ctx:
         if env_extra:
             env.update(env_extra)
         p = subprocess.run([binary or self.vh] + args, env=env, capture_output=True, text=True, timeout=timeout, input=stdin)
+        if p.returncode == 3:
+            for line in p.stderr.splitlines():
+                if line.startswith("ENGINE-PANIC "):
+                    raise EnginePanic(json.loads(line[len("ENGINE-PANIC "):]))
         if p.returncode not in ok_codes:
             raise Broken(f"harness {' '.join(args[:3])} exited {p.returncode}:\n{p.stderr[-4000:]}")
         return p
